@@ -65,6 +65,10 @@ def _pyconst(kind, k, w):
         return "%d'b%s" % (w, format(k, 'b'))
     if kind == 'vhex':
         return "%d'h%x" % (w, k)
+    if kind == 'vhexx':
+        return "%d'x%x" % (w, k)
+    if kind == 'voct':
+        return "%d'o%o" % (w, k)
     if kind == 'const':
         return pyrtl.Const(k, bitwidth=w)
     if kind == 'sconst':
@@ -361,6 +365,20 @@ def cases(tier, seed):
                 wk = max(wa, 2)
                 for side in 'lr':
                     out.append({'item': 'constop', 'op': op, 'wa': wa, 'k': k, 'kind': 'sconst', 'wk': wk, 'side': side})
+    # the operators at the 64-bit limb boundaries on the other two back ends
+    for be in ('compiled', 'fast'):
+        for op in ('+', '-', '<', '==', '&') + (('*',) if tier != 'quick' else ()):
+            for wa, wb in ((64, 64), (65, 64), (128, 128), (129, 127), (130, 64), (192, 192)) if op != '*' else ((33, 33), (64, 64)):
+                if tier == 'quick' and be == 'fast' and wa not in (128, 65):
+                    continue
+                out.append({'item': 'binop', 'op': op, 'wa': wa, 'wb': wb, 'backend': be})
+    # every hex digit as the leading digit of a Verilog-style string (digits that are also base letters: b, d), in each base
+    for lead in range(1, 16):
+        for k in ((lead << 4) | 5, (lead << 8) | 0xb7):
+            for kind in ('vhex', 'vhexx', 'voct', 'vbin', 'vstr'):
+                if tier == 'quick' and kind in ('voct', 'vbin', 'vstr') and lead not in (1, 0xb, 0xd):
+                    continue
+                out.append({'item': 'constop', 'op': '+', 'wa': 12, 'k': k, 'kind': kind, 'wk': 12, 'side': 'r'})
     # slices with Python index semantics
     for w in ([1, 2, 3, 4] if tier == 'quick' else [1, 2, 3, 4, 5, 6, 7]):
         for i in range(-w, w):
